@@ -3343,3 +3343,144 @@ func fieldGuardedAtCallSites(p *eng.Prog, fn *ssa.Function, sz ssa.Value, accept
 	}
 	return n > 0 && all
 }
+
+// R2.15 [C02]
+func ruleParsedCountCapped(c *eng.Ctx) {
+	const R = "R2.15-PARSED-COUNT-CAPPED"
+	c.Rule(R, "a count parsed from document text (a span, a repeat count: strconv.Atoi/ParseInt stored into a field) that reaches the size of an allocation — directly or summed up over the cells of a row — is compared with a constant cap somewhere in its package: without any cap one attribute set to 2^31 sizes a slice or a grid", 2, 0)
+	// fields that receive a parsed number
+	type fkey struct {
+		st  string
+		idx int
+	}
+	parsedField := map[fkey]string{}
+	pkgsWith := map[*ssa.Package]bool{}
+	isParsed := func(v ssa.Value) bool {
+		for w := range eng.Slice(v, nil) {
+			if ex, ok := w.(*ssa.Extract); ok && ex.Index == 0 {
+				if call, ok := ex.Tuple.(*ssa.Call); ok {
+					switch eng.CalleeName(call) {
+					case "strconv.Atoi", "strconv.ParseInt", "strconv.ParseUint":
+						return true
+					}
+				}
+			}
+		}
+		return false
+	}
+	for _, fn := range c.P.ModuleFuncs() {
+		eng.Instrs(fn, false, func(in ssa.Instruction) {
+			st, ok := in.(*ssa.Store)
+			if !ok {
+				return
+			}
+			fa, ok := st.Addr.(*ssa.FieldAddr)
+			if !ok {
+				return
+			}
+			if bt, ok := st.Val.Type().Underlying().(*types.Basic); !ok || bt.Info()&types.IsInteger == 0 {
+				return
+			}
+			if isParsed(st.Val) {
+				if fr, ok := eng.AsField(fa); ok {
+					parsedField[fkey{eng.TypeName(fa.X.Type()), fa.Field}] = fr.Field
+					if fn.Pkg != nil {
+						pkgsWith[fn.Pkg] = true
+					}
+				}
+			}
+		})
+	}
+	fieldOf := func(v ssa.Value) (fkey, bool) {
+		switch x := v.(type) {
+		case *ssa.UnOp:
+			if fa, ok := x.X.(*ssa.FieldAddr); ok && x.Op == token.MUL {
+				return fkey{eng.TypeName(fa.X.Type()), fa.Field}, true
+			}
+		case *ssa.Field:
+			return fkey{"*" + eng.TypeName(x.X.Type()), x.Field}, true
+		}
+		return fkey{}, false
+	}
+	norm := func(k fkey) fkey { k.st = strings.TrimPrefix(k.st, "*"); return k }
+	pf := map[fkey]string{}
+	for k, v := range parsedField {
+		pf[norm(k)] = v
+	}
+	// caps: comparisons of such a field (possibly ±1) with something that contains a constant >= 2
+	capped := map[fkey]bool{}
+	for _, fn := range c.P.ModuleFuncs() {
+		if !pkgsWith[fn.Pkg] {
+			continue
+		}
+		eng.Instrs(fn, false, func(in ssa.Instruction) {
+			b, ok := in.(*ssa.BinOp)
+			if !ok {
+				return
+			}
+			switch b.Op {
+			case token.LSS, token.LEQ, token.GTR, token.GEQ:
+			default:
+				return
+			}
+			for _, side := range [][2]ssa.Value{{b.X, b.Y}, {b.Y, b.X}} {
+				hasConst := false
+				for w := range eng.Slice(side[1], nil) {
+					if k, isC := eng.ConstInt(w); isC && k >= 2 {
+						hasConst = true
+					}
+				}
+				if !hasConst {
+					continue
+				}
+				for w := range eng.Slice(side[0], nil) {
+					if fk, ok := fieldOf(w); ok {
+						if _, isP := pf[norm(fk)]; isP {
+							capped[norm(fk)] = true
+						}
+					}
+				}
+			}
+		})
+	}
+	n := 0
+	for _, fn := range c.P.ModuleFuncs() {
+		if fn.Blocks == nil || !pkgsWith[fn.Pkg] {
+			continue
+		}
+		k := 0
+		eng.Instrs(fn, false, func(in ssa.Instruction) {
+			var sizes []ssa.Value
+			switch x := in.(type) {
+			case *ssa.MakeSlice:
+				sizes = []ssa.Value{x.Len, x.Cap}
+			case *ssa.Call:
+				if eng.CalleeName(x) == "model.NewTable" {
+					sizes = x.Call.Args
+				}
+			}
+			seen := map[fkey]bool{}
+			for _, sz := range sizes {
+				if _, isC := eng.ConstInt(sz); isC {
+					continue
+				}
+				for w := range eng.Slice(sz, nil) {
+					fk, ok := fieldOf(w)
+					if !ok {
+						continue
+					}
+					fk = norm(fk)
+					name, isP := pf[fk]
+					if !isP || seen[fk] {
+						continue
+					}
+					seen[fk] = true
+					n++
+					k++
+					c.Check(capped[fk], R, fmt.Sprintf("%s#size%d(%s)", eng.FuncName(fn), k, name), in.Pos(), "the parsed count is compared with a constant cap in its package",
+						"the size of this allocation is built from "+name+", a number parsed from the document that is never compared with a cap: a span or repeat count of 2^31 in one attribute exhausts memory")
+				}
+			}
+		})
+	}
+}
